@@ -533,6 +533,11 @@ def _search_angles(
     # Count converged receivers
     n_converged = converged.sum()
 
+    # The refinement perturbs the new angles at random. A generator of its own: the
+    # solution (and the misfit) is a function of the arguments, not of the state of
+    # NumPy's global generator
+    rng = _numpy.random.default_rng(0)
+
     # Start refining the take-off angles, while keeping track of the number of failures
     failed_refines = 0
     while not _numpy.all(converged) and failed_refines < max_attempts:
@@ -579,7 +584,7 @@ def _search_angles(
             )
 
             new_angles = new_angles * (
-                1 + randomize_angle_fraction * _numpy.random.randn(*new_angles.shape)
+                1 + randomize_angle_fraction * rng.standard_normal(new_angles.shape)
             )
 
             if parallel:
